@@ -111,6 +111,7 @@ class Arr(object):
         self.buf, self.pos = buf, pos
         self.kind = kind            # optional dtype-kind tag ('f', 'c', 'i', 'b', 'O')
         self.memrank = None         # memory rank of each logical element when it is known not to be C order
+        self.readonly = False       # flags.writeable is False (setflags(write=False)); views made afterwards inherit it
 
     # ---- basic protocol
     @property
@@ -162,7 +163,19 @@ class Arr(object):
         return a
 
     def view(self, shape, pos):
-        return Arr(shape, buf=self.buf, pos=pos, kind=self.kind)
+        v = Arr(shape, buf=self.buf, pos=pos, kind=self.kind)
+        v.readonly = self.readonly
+        return v
+
+    def setflags(self, write=None, **kw):
+        if kw:
+            raise AnalysisError('setflags(%s)' % ', '.join(kw))
+        if write is not None:
+            self.readonly = not write
+
+    def _check_writeable(self):
+        if self.readonly:
+            raise InterpValueError('assignment destination is read-only')
 
     def __repr__(self):
         return 'Arr%s%r' % (self.shape, self.items() if self.size <= 12 else self.items()[:12] + ['...'])
@@ -432,6 +445,7 @@ class Arr(object):
         return Arr(self.shape, [m[(p // strides[axis]) % self.shape[axis]] for p in range(self.size)])
 
     def __setitem__(self, index, value):
+        self._check_writeable()
         where = getattr(self, '_where', None)
         if self.kind == 'i':
             check_int_store(self, value)
@@ -640,6 +654,7 @@ class FlatView(object):
 
     def __setitem__(self, idx, value):
         a = self.arr
+        a._check_writeable()
         if a.kind == 'i':
             check_int_store(a, value)
         if isinstance(idx, Arr):
